@@ -173,7 +173,25 @@ func discharge(dir string, fr *FnResult, timeout time.Duration, confirm bool, se
 			} else {
 				fmt.Fprintf(&b, "(assert %s)\n", g.Goal.S)
 			}
-			b.WriteString("(check-sat)\n(get-model)\n")
+			b.WriteString("(check-sat)\n")
+			if len(g.Inputs) > 0 {
+				var names []string
+				for _, in := range g.Inputs {
+					names = append(names, "gvin_"+in.Name)
+				}
+				// definitions must precede check-sat: rebuild
+				s := b.String()
+				cut := strings.LastIndex(s, "(check-sat)")
+				b.Reset()
+				b.WriteString(s[:cut])
+				for _, in := range g.Inputs {
+					fmt.Fprintf(&b, "(define-fun gvin_%s () %s %s)\n", in.Name, in.T.So, in.T.S)
+				}
+				b.WriteString("(check-sat)\n")
+				fmt.Fprintf(&b, "(get-value (%s))\n", strings.Join(names, " "))
+			} else {
+				b.WriteString("(get-model)\n")
+			}
 			file := filepath.Join(dir, fmt.Sprintf("%s_%d.smt2", sanitize(g.Name), i))
 			if len(file) > 200 {
 				file = filepath.Join(dir, fmt.Sprintf("g_%d_%d.smt2", len(g.Name), i))
